@@ -44,7 +44,7 @@ Print Assumptions C01_cbw_no_panic.
 (* the element parsers only succeed or Backtrack (never Cut, never panic) ... *)
 Theorem C01_cbw_elems_never_cut : forall l,
   ok_or_back (fifo_entry l) /\ ok_or_back (scalers_block l).
-Proof. intro l. split; [apply fifo_entry_ok_or_back|apply scalers_block_ok_or_back]. Qed.
+Proof. exact elems_ok_or_back. Qed.
 Print Assumptions C01_cbw_elems_never_cut.
 
 (* ... and the whole parser returns Ok before `.unwrap()`: "this parser always succeeds" (chronobox.rs:171) *)
